@@ -173,6 +173,114 @@ def _falls_through(stmts):
     return True
 
 
+class _SubstNames(ast.NodeTransformer):
+    def __init__(self, mapping):
+        self.mapping = mapping
+
+    def visit_Name(self, node):
+        if isinstance(node.ctx, ast.Load) and node.id in self.mapping:
+            return _plain_copy(self.mapping[node.id])
+        return node
+
+
+def _plain_copy(node):
+    if isinstance(node, list):
+        return [_plain_copy(x) for x in node]
+    if not isinstance(node, ast.AST):
+        return node
+    new = type(node)()
+    for fld in node._fields:
+        if hasattr(node, fld):
+            setattr(new, fld, _plain_copy(getattr(node, fld)))
+    for a in ('lineno', 'col_offset', 'end_lineno', 'end_col_offset'):
+        if hasattr(node, a):
+            setattr(new, a, getattr(node, a))
+    return new
+
+
+def _unroll_table_loops(tree):
+    """``for a, b in TABLE: if t(a): body(b) [break]`` over a module-level
+    constant table of literal tuples is the if / elif chain it abbreviates:
+    without ``break`` a sequence of independent ifs, with ``break`` as the
+    last statement of the if an if/elif chain (a loop ``else`` becomes the
+    final else).  Only tables assigned once at module level as a tuple/list
+    display whose elements are tuple displays of the target's arity."""
+    tables = {}
+    counts = {}
+    for st in tree.body:
+        if isinstance(st, ast.Assign) and len(st.targets) == 1 and \
+                isinstance(st.targets[0], ast.Name):
+            nm = st.targets[0].id
+            counts[nm] = counts.get(nm, 0) + 1
+            if isinstance(st.value, (ast.Tuple, ast.List)) and st.value.elts \
+                    and all(isinstance(e, ast.Tuple) for e in st.value.elts):
+                tables[nm] = st.value.elts
+    tables = {k: v for k, v in tables.items() if counts.get(k) == 1}
+    if not tables:
+        return
+    for node in list(ast.walk(tree)):
+        for fld in ('body', 'orelse', 'finalbody'):
+            blk = getattr(node, fld, None)
+            if not (isinstance(blk, list) and blk and isinstance(
+                    blk[0], ast.stmt)):
+                continue
+            i = 0
+            while i < len(blk):
+                st = blk[i]
+                rep = _unrolled(st, tables) if isinstance(st, ast.For) \
+                    else None
+                if rep is not None:
+                    blk[i:i + 1] = rep
+                    i += len(rep)
+                else:
+                    i += 1
+
+
+def _unrolled(lp, tables):
+    if not (isinstance(lp.iter, ast.Name) and lp.iter.id in tables):
+        return None
+    elts = tables[lp.iter.id]
+    if isinstance(lp.target, ast.Tuple):
+        tnames = [t.id if isinstance(t, ast.Name) else None
+                  for t in lp.target.elts]
+    else:
+        return None
+    if None in tnames or any(len(e.elts) != len(tnames) for e in elts):
+        return None
+    if len(lp.body) != 1 or not isinstance(lp.body[0], ast.If) or \
+            lp.body[0].orelse:
+        return None
+    iff = lp.body[0]
+    has_break = isinstance(iff.body[-1], ast.Break)
+    inner = iff.body[:-1] if has_break else iff.body
+    for n in ast.walk(ast.Module(body=inner, type_ignores=[])):
+        if isinstance(n, (ast.Break, ast.Continue)):
+            return None
+        if isinstance(n, ast.Name) and isinstance(
+                n.ctx, ast.Store) and n.id in tnames:
+            return None
+    if lp.orelse and not has_break:
+        return None
+    if not inner and has_break:
+        inner = [ast.copy_location(ast.Pass(), iff)]
+    arms = []
+    for e in elts:
+        sub = _SubstNames(dict(zip(tnames, e.elts)))
+        test = sub.visit(_plain_copy(iff.test))
+        body = [sub.visit(_plain_copy(x)) for x in inner]
+        arm = ast.If(test=test, body=body, orelse=[])
+        ast.copy_location(arm, iff)
+        arms.append(arm)
+    if not has_break:
+        return arms
+    # chain
+    tail = _plain_copy(lp.orelse) if lp.orelse else []
+    for arm in reversed(arms):
+        arm.orelse = tail
+        tail = [arm]
+    return tail
+
+
 def normalise(tree):
     """Canonical statement shapes, so that rules see one spelling of
     equivalent control flow (positions are kept; nothing is executed):
@@ -184,6 +292,7 @@ def normalise(tree):
     3. ``if a: if b: X`` (no else on either, the inner if alone)
                                           ->  ``if a and b: X``
     Each step is semantics-preserving for any program."""
+    _unroll_table_loops(tree)
     changed = True
     rounds = 0
     while changed and rounds < 50:
@@ -260,10 +369,25 @@ class Module(object):
         self.classes = {}      # name -> Class
         self.assigns = {}      # name -> [ast.Assign/AugAssign nodes] in order
         self.consts = None     # filled by ConstEval
+        self._link()
+
+    def _link(self):
         for n in ast.walk(self.tree):
             for c in ast.iter_child_nodes(n):
                 c._parent = n
         self.tree._parent = None
+
+    def reset_after_rewrite(self):
+        """The tree was rewritten (psa/inline.py): forget what was indexed
+        from it."""
+        if os.environ.get('PSA_NO_NORMALISE') != '1':
+            normalise(self.tree)
+        self.imports = {}
+        self.functions = {}
+        self.classes = {}
+        self.assigns = {}
+        self.consts = None
+        self._link()
 
     def __repr__(self):
         return '<Module %s>' % self.name
@@ -293,6 +417,9 @@ class Program(object):
         self._digest = hashlib.sha256()
         self._load()
         self._index()
+        self.inlined = {}          # module -> number of expansions
+        if self.relocate and os.environ.get('PSA_NO_INLINE') != '1':
+            self._inline_new_code()
         self.consteval = ConstEval(self)
 
     # -- loading ---------------------------------------------------------
@@ -484,6 +611,46 @@ class Program(object):
 
         visit_body(m.tree.body, None, None)
 
+    def _inline_new_code(self):
+        """Expand calls of module-level functions the reference tree does
+        not have (psa/inline.py), then index the program again."""
+        from psa import anchors, inline
+        table = anchors.load_table()
+        if not table:
+            return
+        new = {}
+        for f in self.funcs:
+            if f.parent is None and f.cls is None and f.qbase not in table \
+                    and not getattr(f, 'relocated_from', None):
+                new.setdefault(f.module.name, set()).add(f.name)
+        done = False
+        cms = {mn: inline.module_cms(self.modules[mn].tree, names)
+               for mn, names in new.items()}
+        cms = {mn: c for mn, c in cms.items() if c}
+        for mn, m in self.modules.items():
+            foreign = {}
+            for alias, target in m.imports.items():
+                if target in cms and target != mn:
+                    foreign[alias] = (self.modules[target].tree, cms[target])
+            names = new.get(mn, set())
+            if not names and not foreign:
+                continue
+            k = inline.inline_module(m.tree, names, foreign)
+            if k:
+                self.inlined[mn] = k
+                done = True
+        if not done:
+            return
+        for m in self.modules.values():
+            if m.name in self.inlined:
+                m.reset_after_rewrite()
+            else:
+                m.imports, m.functions, m.classes, m.assigns = {}, {}, {}, {}
+        self.funcs = []
+        self.classes = {}
+        self.relocated = {}
+        self._index()
+
     def _relocate(self):
         """Present moved / renamed functions under their recorded names
         (psa/anchors.py).  Top-level and class-level functions first, then
@@ -492,16 +659,19 @@ class Program(object):
         table = anchors.load_table()
         if not table:
             return
-        for nested in (False, True):
+        for nested in (False, True, None):
+            # None: what is still missing may have changed nesting level
             missing = [q for q in table if q not in self.by_qbase
-                       and ('>' in q) == nested]
+                       and (nested is None or ('>' in q) == nested)]
             if not missing:
                 continue
             extra = {q: fs for q, fs in self.by_qbase.items()
-                     if q not in table and ('>' in q) == nested}
+                     if q not in table and not any(
+                         getattr(f, 'relocated_from', None) for f in fs)
+                     and (nested is None or ('>' in q) == nested)}
             if not extra:
                 continue
-            m = anchors.match(missing, extra, table)
+            m = anchors.match(missing, extra, table, cross=nested is None)
             for rec, act in m.items():
                 for f in self.by_qbase[act]:
                     f._qbase = rec.split('@')[0] if False else rec
@@ -578,8 +748,9 @@ class Program(object):
         if dotted is None:
             return None
         if '>' in dotted:
-            fs = [f for f in self.funcs if f.qbase == dotted.split('.')[0]
-                  or f.qbase == dotted]
+            keys = (dotted.split('.')[0], dotted)
+            fs = [f for f in self.funcs if f.qbase in keys
+                  or getattr(f, 'relocated_from', None) in keys]
             return fs or None
         if dotted in self.modules:
             return self.modules[dotted]
